@@ -33,6 +33,11 @@ impl std::fmt::Display for Echo {
         f.write_str(&self.0)
     }
 }
+impl serde::Serialize for Echo {
+    fn serialize<S: serde::Serializer>(&self, s: S) -> Result<S::Ok, S::Error> {
+        s.serialize_str(&self.0)
+    }
+}
 impl conjure_object::FromPlain for Echo {
     type Err = EchoError;
     fn from_plain(s: &str) -> Result<Echo, EchoError> {
@@ -98,6 +103,17 @@ pub trait MacroApi {
         #[query(name = "snake_arg", encoder = DisplaySeqEncoder)] snake_arg: &[i32],
         #[header(name = "X-Match", encoder = DisplaySeqEncoder)] match_: Option<bool>,
     ) -> Result<String, Error>;
+
+    /// attribute forms: path parameters without `name`, `log_as` naming a different template parameter
+    #[endpoint(method = GET, path = "/m/attrs/{a}/{b}/{c}", accept = ConjureResponseDeserializer)]
+    fn attrs(
+        &self,
+        #[path] a: &Echo,
+        #[path] b: &Echo,
+        #[path(name = "c")] c: i32,
+        #[query(name = "q1")] q: &Echo,
+        #[header(name = "X-H1")] h: &Echo,
+    ) -> Result<String, Error>;
 }
 
 #[conjure_client]
@@ -157,6 +173,17 @@ pub trait AsyncMacroApi {
         #[header(name = "X-Self")] self_: i32,
         #[query(name = "snake_arg", encoder = DisplaySeqEncoder)] snake_arg: &[i32],
         #[header(name = "X-Match", encoder = DisplaySeqEncoder)] match_: Option<bool>,
+    ) -> Result<String, Error>;
+
+    /// attribute forms: path parameters without `name`, `log_as` naming a different template parameter
+    #[endpoint(method = GET, path = "/m/attrs/{a}/{b}/{c}", accept = ConjureResponseDeserializer)]
+    async fn attrs(
+        &self,
+        #[path] a: &Echo,
+        #[path] b: &Echo,
+        #[path(name = "c")] c: i32,
+        #[query(name = "q1")] q: &Echo,
+        #[header(name = "X-H1")] h: &Echo,
     ) -> Result<String, Error>;
 }
 
@@ -220,6 +247,16 @@ macro_rules! macro_endpoints {
                 #[query(name = "snake_arg", decoder = FromStrSeqDecoder<_>)] snake_arg: Vec<i32>,
                 #[header(name = "X-Match", decoder = FromStrOptionDecoder, log_as = "match", safe)] match_: Option<bool>,
             ) -> Result<String, Error>;
+
+            #[endpoint(method = GET, path = "/m/attrs/{a}/{b}/{c}", produces = StdResponseSerializer)]
+            $($asyncness)? fn attrs(
+                &self,
+                #[path(safe, log_as = "b")] a: Echo,
+                #[path(log_as = "bee")] b: Echo,
+                #[path(name = "c", log_as = "sea")] c_renamed: i32,
+                #[query(name = "q1", log_as = "pq", safe)] q: Echo,
+                #[header(name = "X-H1", log_as = "hh")] h: Echo,
+            ) -> Result<String, Error>;
         }
     };
 }
@@ -266,6 +303,10 @@ macro_rules! macro_handler {
                     "camelCase": camel_case, "self": self_, "snake_arg": snake_arg, "match": match_}}));
                 conjure_serde::json::client_from_str(&self.ret.to_string()).map_err(Error::internal_safe)
             }
+            $($asyncness)? fn attrs(&self, a: Echo, b: Echo, c: i32, q: Echo, h: Echo) -> Result<String, Error> {
+                self.rec.lock().unwrap().calls.push(json!({"endpoint": "attrs", "args": {"b": a.0, "bee": b.0, "sea": c, "pq": q.0, "hh": h.0}}));
+                conjure_serde::json::client_from_str(&self.ret.to_string()).map_err(Error::internal_safe)
+            }
         }
     };
 }
@@ -309,6 +350,10 @@ macro_rules! mac_calls {
                 "unit" => $w!(c.unit(&arg::<String>(args, "body")?)).map(|()| Value::Null),
                 "names" => $w!(c.names(arg(args, "type")?, arg(args, "fooBar")?, arg(args, "async")?, arg(args, "camelCase")?, arg(args, "self")?,
                     &arg::<Vec<i32>>(args, "snake_arg")?, arg(args, "match")?)).map(|v| json!(v)),
+                "attrs" => {
+                    let e = |n: &str| -> Result<Echo, String> { Ok(Echo(arg::<String>(args, n)?)) };
+                    $w!(c.attrs(&e("b")?, &e("bee")?, arg(args, "sea")?, &e("pq")?, &e("hh")?)).map(|v| json!(v))
+                }
                 other => return Err(format!("endpoint {other} has no macro twin")),
             })
         }
